@@ -17,6 +17,8 @@ _RE_CONTROL = re.compile((
     ) + ']'
     ).encode())
 
+_TEMPLATE_NAMESPACE = b'http://twistedmatrix.com/ns/twisted.web.template/0.1'
+
 def html2stan(html: Union[bytes, str]) -> Tag:
     """
     Convert an HTML string to a Stan tree.
@@ -31,6 +33,9 @@ def html2stan(html: Union[bytes, str]) -> Tag:
 
     html = _RE_CONTROL.sub(lambda m:b'\\x%02x' % ord(m.group()), html)
     if not html.startswith(b'<?xml'):
+        # A fragment is content, never a template: the template directives of twisted.web 
+        # (slots, render attributes) it may quote are not meant for the flattener.
+        html = html.replace(_TEMPLATE_NAMESPACE, _TEMPLATE_NAMESPACE + b'#quoted')
         stan = XMLString(b'<div>%s</div>' % html).load()[0]
         assert isinstance(stan, Tag)
         assert stan.tagName == 'div'
